@@ -95,6 +95,15 @@ check("C19", "TLA+ intent function LasRead!Read with junk lines over the TLC-enu
       "junk lines, flag on/off) x pooled and seeded random junk; Trace_Read (TLC): no exception with the flag, genuine items kept, "
       "only LASHeaderError naming a junk line without it",
       READ, TRUSTED, "DESIGN.md 4 C19")
+check("C09", "Presentation.tla (TLC): transformations as actions, invariant Read unchanged; every reachable transformed text "
+      "concretised with fresh presentation choices and compared with its base on real lasio (Trace_Read + Trace_Presentation); "
+      "corpus and writer output under seeded concrete transformations (Trace_Presentation)",
+      "Model checking + metamorphic trace validation: TLC proves on the model that inserting blank/comment lines outside ~Other "
+      "and re-wrapping WRAP=YES data preserve LasRead!Read (and that inserting into ~Other does not); every reachable "
+      "transformed text, concretised with a fresh draw of spacing/title/newline/delimiter-padding choices, must read to the "
+      "same complete result (digest) as its base and to the model's result; 250 corpus/writer-output sources are transformed "
+      "concretely with the sites logged, and TLC checks that each transformation was enabled and the digest unchanged.",
+      TRUSTED, "DESIGN.md 4 C09")
 
 
 def main():
